@@ -153,6 +153,8 @@ COVERS_REQUIRED = ['leaf_crlf', 'leaf_lf', 'mixed_crlf', 'mixed_lf', 'temp', 'le
 
 
 def replay(native, v):
+    if v['data'].get('op') == 'kani':
+        return kani_replay(v)
     d = v['data']
     model = d['model']
     if d['op'] == 'leaf':
@@ -190,3 +192,20 @@ def replay(native, v):
     return bad, {'source': repr(src), 'included f': repr(ppreplay.conc(d['inc'], model)),
                  'commands': [(c, repr(ppreplay.conc(o, model))) for c, o in d.get('cmd_results', [])],
                  'first-line ending': repr(le), 'native_output': repr(nat['output']), 'native_temp': repr(nat['temp'])}
+
+
+def extra_engines(tier, seed, args):
+    """engine E1: Kani on the compiled leaf functions (second, independent lowering)"""
+    from lib import kani
+    hs = ['line_ending_from_buf_is_first_line_terminator'] if tier == 'quick' else ['line_ending_from_buf_is_first_line_terminator']
+    if not hs or getattr(args, 'only', None):
+        return {'inconclusive': [], 'violations': [], 'evidence': None}
+    return kani.extra(hs, 300 if tier == 'quick' else 1500, 'get_line_ending_from_buf == terminator of the first line, every buffer of <=6 arbitrary bytes')
+
+
+def kani_replay(v):
+    """a failed Kani harness on the compiled code is already a statement about the real code; it is confirmed by
+    re-running the harness once more (deterministic) and reported with the failing checks"""
+    from lib import kani
+    r = kani.run_harness(v['data']['harness'], timeout_s=1500)
+    return r['status'] == 'failed', {'harness': v['data']['harness'], 'failed_checks': r['failed_checks']}
